@@ -772,7 +772,7 @@ func (x *FnExec) preserveFact(pre, post *State, h string) string {
 	al := x.heapGet(pre, "$alloc", "(Array Ref Bool)")
 	x.q.fresh["qv_fr"]++
 	r := fmt.Sprintf("|r?fr%d|", x.q.fresh["qv_fr"])
-	return fmt.Sprintf("(forall ((%s Ref)) (=> (select %s %s) (= (select %s %s) (select %s %s))))", r, al, r, b, r, a, r)
+	return fmt.Sprintf("(forall ((%s Ref)) (! (=> (select %s %s) (= (select %s %s) (select %s %s))) :pattern ((select %s %s))))", r, al, r, b, r, a, r, b, r)
 }
 
 // nondetReasons: syntactic sources of nondeterminism / hidden state in fn and the repository functions it calls.
